@@ -799,7 +799,15 @@ func symSqrt(fr *frame, a []value) value {
 	pc := fr.i.pc
 	switch x := a[0].(type) {
 	case float64:
-		return math.Sqrt(x)
+		r := math.Sqrt(x)
+		if fr.i.cfg.ExactReal && !pc.concrete && x > 0 && !math.IsInf(x, 0) {
+			// exact-real harnesses: an irrational (inexact) square root stays exact
+			rr := new(big.Rat).SetFloat64(r)
+			if new(big.Rat).Mul(rr, rr).Cmp(new(big.Rat).SetFloat64(x)) != 0 {
+				return symSqrt(fr, []value{sym{k: skReal, bk: types.Float64, t: realLit(x)}})
+			}
+		}
+		return r
 	case sym:
 		if x.k == skReal {
 			if pc.branch("(< " + x.t + " 0.0)") {
